@@ -1,10 +1,10 @@
 #!/bin/bash
-# usage: sweep.sh <tier> <seed>...   runs every check of MANIFEST.json and prints one line per (check, seed)
+# usage: [SWEEP_IDS='C01 C07'] sweep.sh <tier> <seed>...   runs every check of MANIFEST.json (or the named ones) and prints one line per (check, seed)
 TIER="$1"; shift
 cd "$(dirname "$0")/.."
 # under `vp run --with-repo` the snapshot of /repo HEAD is used, so that edits to /repo do not disturb the sweep
 [ -n "$VP_RUN_REPO" ] && export VERIF_REPO="$VP_RUN_REPO"
-IDS=$(python3 -c "import json;print(' '.join(c['property_id'] for c in json.load(open('MANIFEST.json'))['checks']))")
+IDS=${SWEEP_IDS:-$(python3 -c "import json;print(' '.join(c['property_id'] for c in json.load(open('MANIFEST.json'))['checks']))")}
 for seed in "$@"; do
   for id in $IDS; do
     t0=$(date +%s)
